@@ -1,2 +1,25 @@
-// Package c16 holds the check for property C16.
+// Package c16: only the entitled producer's block is accepted.
+//
+// Exhaustive bounded enumeration over four consensus plugins, each built by its
+// public constructor over a stub LedgerRely / network / contract manager and
+// asked through consensus.NewPluggableConsensus (the object the miner calls):
+//
+//	tdpos.go   slot schedule (structure) and CheckMinerMatch (acceptance), every ms
+//	xpoa.go    the same for the XPoA schedule
+//	single.go  proposer x signature x public-key combinations
+//	pow.go     compact target codec, IsProofed, CheckMinerMatch over stub chains
+//
+// Oracles. TDPoS / XPoA: structural (triples non-decreasing, every cell has
+// block_num consecutive slots, every term all positions in order, nothing out
+// of range, alternate / term distances) plus acceptance: accepted iff the
+// candidate is validators[pos(t)] and t lies in a slot; with an unresolvable
+// validator set, before the TDPoS init time, or when the schedule names no
+// slot, nobody may be accepted. single: accepted iff miner, key and signature
+// are all right. PoW is judged one-directionally (accepted implies ...): a
+// stricter implementation never alarms; the reference retarget is the rule
+// pow.go cites (Bitcoin pow.cpp: all values from the parent), applied to the
+// chain the implementation's own miner built.
+//
+// Nothing is sampled: every domain is an explicit finite list iterated in index
+// order; goroutines only partition the list.
 package c16
